@@ -461,6 +461,8 @@ func (s *Server) handleRPCReplenishAccounts(stream net.Conn) error {
 		return errorDecodingError("failed to read request: %v", err)
 	} else if err := req.Validate(); err != nil {
 		return rhp4.NewRPCError(rhp4.ErrorCodeBadRequest, err.Error())
+	} else if err := validateUniqueAccounts(req.Accounts); err != nil {
+		return err
 	}
 
 	// lock the existing contract
@@ -535,6 +537,8 @@ func (s *Server) handleRPCReplenishPools(stream net.Conn) error {
 		return errorDecodingError("failed to read request: %v", err)
 	} else if err := req.Validate(); err != nil {
 		return rhp4.NewRPCError(rhp4.ErrorCodeBadRequest, err.Error())
+	} else if err := validateUniqueAccounts(req.Accounts); err != nil {
+		return err
 	}
 
 	state, unlock, err := s.lockContractForRevision(req.ContractID)
@@ -1398,6 +1402,21 @@ func (s *Server) Serve(t TransportMux, log *zap.Logger) error {
 			s.handleHostStream(stream, log)
 		}()
 	}
+}
+
+// validateUniqueAccounts returns a bad request error if an account (or pool)
+// is listed more than once. The deposits of a replenish RPC are computed from
+// the balances before the RPC, so a duplicate would be topped up twice and end
+// up above the target.
+func validateUniqueAccounts(accounts []rhp4.Account) error {
+	seen := make(map[rhp4.Account]struct{}, len(accounts))
+	for _, account := range accounts {
+		if _, ok := seen[account]; ok {
+			return errorBadRequest("duplicate account %v", account)
+		}
+		seen[account] = struct{}{}
+	}
+	return nil
 }
 
 // errorBadRequest is a helper to create an rpc BadRequest error
